@@ -600,7 +600,8 @@ pub fn scramble(i: u64, n: u64) -> u64 {
     ((i as u128 * 1_000_003u128) % n as u128) as u64
 }
 
-pub fn subs(tier: Tier) -> Vec<Sub> {
+pub fn subs(_cli_tier: Tier) -> Vec<Sub> {
+    let tier = Tier::Thorough; // the thorough bounds of this group cost ~5 s: both tiers run them
     let mut v = vec![];
     let pl: u32 = tier.pick(4, 5);
     v.push(Sub::new(
